@@ -54,7 +54,7 @@ def s_space(rng, tier):
         sel = mats
     # beyond -1..1: random matrices with entries in -2..3 and |det| <= 8, and diagonals
     extra = []
-    n_extra = int(__import__('os').environ.get('C04_X','300')) if tier == "quick" else 6000
+    n_extra = int(__import__('os').environ.get('C04_X','300')) if tier == "quick" else 1500
     while len(extra) < n_extra:
         m = [[rng.randint(-2, 3) for _ in range(3)] for _ in range(3)]
         if abs(det3(m)) <= 8 and frame_points(m) <= (400 if tier == "quick" else 2500):
@@ -129,7 +129,7 @@ def gen_events(ctx):
         if ac.get("noise"):
             ucell.scaled_positions = ucell.scaled_positions + nprng.uniform(-ac["noise"], ac["noise"], size=(len(ac["num"]), 3))
         # larger cells on a subset of S only (quick)
-        sub = Ss if ci == 0 else Ss[:: (4 if ctx.quick else 3) if ci == 1 else (8 if ctx.quick else 6) if ci == 2 else (16 if ctx.quick else 8)]
+        sub = Ss if ci == 0 else Ss[:: (4 if ctx.quick else 8) if ci == 1 else (8 if ctx.quick else 16) if ci == 2 else (16 if ctx.quick else 32)]
         for S in sub:
             for style in ("classic", "snf"):
                 if style == "snf" and "err" in snf_table.get(tuple(map(tuple, S)), {}):
